@@ -233,8 +233,18 @@ def construct_and_observe(cls_name, subset, seed_value, stats=None):
                 if pers is None:
                     raise Violation("option_ignored.persistence", case, f"{cls_name}: persistence=True but no persistence object")
                 path = kwargs.get("persistence_file", os.path.join(tmp, "mysensors.pickle"))
-                pers.need_save = True
+                pers.save_sensors()  # the first scheduled save
+                # an update arrives; the next scheduled save must write it (no flags forced by the harness)
+                gw.tasks.add_job(gw.logic, "1;3;0;0;6;late child")
+                pump_all(gw, sent)
+                gw.tasks.add_job(gw.logic, "1;3;1;0;0;21.5")
+                pump_all(gw, sent)
                 pers.save_sensors()
+                fresh = drive.Driver("2.2", "sync", persistence=True, persistence_file=path)
+                fresh.gw.tasks.persistence.safe_load_sensors()
+                got = fresh.gw.sensors.get(1)
+                if got is None or 3 not in got.children or got.children[3].values.get(0) != "21.5":
+                    raise Violation("option_ignored.persistence", case, f"{cls_name} with options {sorted(subset)}: an update received after the first save was not written by the next save (file has {sorted(fresh.gw.sensors)} / children {sorted(got.children) if got else None})")
                 if not os.path.isfile(path):
                     raise Violation("option_ignored.persistence_file", case, f"{cls_name}: the save did not land at {path!r}; directory has {sorted(os.listdir(tmp))}")
                 head = open(path, "rb").read(1)
